@@ -40,7 +40,11 @@ def answer(z, u_naive):
     from dateutil import tz
     loc = u_naive.replace(tzinfo=tz.UTC).astimezone(z)
     d = loc.dst()
-    return (loc.utcoffset().total_seconds(), loc.tzname(), bool(d))
+    off = loc.utcoffset()
+    if loc.replace(tzinfo=None) - u_naive != off:
+        # the reported offset must also be the one the wall clock was computed with
+        return ('wall-clock-inconsistent', str(loc.replace(tzinfo=None)), off.total_seconds())
+    return (off.total_seconds(), loc.tzname(), bool(d))
 
 
 def locate(z, t):
